@@ -13,6 +13,22 @@ let pm_specs : pm_spec list ref = ref []          (* newest first *)
 let pm_inv : pm_obj list ref = ref []
 let pm_user : pm_entry list ref = ref []
 
+let pm_globals : (pm_str * pm_fval) list ref = ref []    (* the global constants declared by pm_glob, newest first *)
+
+(* a free-name value: <hex> = string, @<hex>+<hex>.. = array of strings *)
+let pm_fval_of (v : string) : pm_fval =
+  if String.length v > 0 && v.[0] = '@' then
+    let r = String.sub v 1 (String.length v - 1) in
+    PmVA (if r = "" then [] else List.map (fun x -> pm_zs (hex_dec x)) (String.split_on_char '+' r))
+  else PmVS (pm_zs (hex_dec v))
+let pm_env_of s : (pm_str * pm_fval) list = List.map (fun kv -> match String.split_on_char ':' kv with
+  | [k; v] -> (pm_zs (hex_dec k), pm_fval_of v) | _ -> failwith "bad env") (pm_split ',' s)
+let pm_glob_of a : pm_str * pm_fval =
+  (pm_zs (pm_hex a "name"),
+   if has a "a" then PmVA (List.map (fun x -> pm_zs (hex_dec x)) (pm_split ',' (str a "a" "-"))) else PmVS (pm_zs (pm_hex a "s")))
+(* a later declaration of the same name replaces the earlier one *)
+let pm_glob_add g (l : (pm_str * pm_fval) list) = g :: List.filter (fun (k, _) -> k <> fst g) l
+
 let pm_vars s = List.map (fun kv -> match String.split_on_char ':' kv with
   | [k; v] -> (pm_zs (hex_dec k), pm_zs (hex_dec v)) | _ -> failwith "bad vars") (pm_split ',' s)
 
@@ -38,6 +54,12 @@ let pm_filter_of_rpn (rpn : string) : pm_filter =
        | ('n' | 'N'), [_; n] -> st := PmFName (sc, pm_zs (hex_dec n)) :: !st
        | 'v', [_; k; v] -> st := PmFVar (sc, pm_zs (hex_dec k), pm_zs (hex_dec v)) :: !st
        | ('c' | 'C'), [_; x] -> st := PmFNameVar (sc, pm_zs (hex_dec x)) :: !st
+       | 'w', [_; k; x] -> st := PmFVarFree (sc, pm_zs (hex_dec k), pm_zs (hex_dec x)) :: !st
+       | 'i', [_; x] -> st := PmFNameIn (sc, pm_zs (hex_dec x)) :: !st
+       | 'm', [_; x] -> st := PmFMatch (sc, pm_zs (hex_dec x)) :: !st
+       | 'M', [_; x] -> st := PmFMatchVar (sc, pm_zs (hex_dec x)) :: !st
+       | 'l', [_; n] -> st := PmFLen (sc, z_of_int (int_of_string n)) :: !st
+       | 'r', [_; x] -> st := PmFRegex (sc, pm_zs (hex_dec x)) :: !st
        | _ -> failwith ("bad atom " ^ tk))) (pm_split ',' rpn);
   match !st with [f] -> f | _ -> failwith "bad rpn"
 
@@ -95,7 +117,7 @@ let pm_query_of a : pm_query =
   { pq_host = o "host"; pq_service = o "service"; pq_hosts = ol "hosts"; pq_services = ol "services";
     pq_type = (if has a "type" then Some (pm_qtype_of (str a "type" "")) else None);
     pq_filter = (if has a "filter" then Some (pm_filter_of_rpn (str a "filter" "")) else None);
-    pq_fvars = (if has a "fv" then pm_vars (str a "fv" "-") else []) }
+    pq_fvars = (if has a "fv" then pm_env_of (str a "fv" "-") else []) }
 
 let b01 b = if b then "1" else "0"
 
@@ -128,9 +150,31 @@ let pm_http_of a : pm_http =
 
 let pm_dedup l = List.sort_uniq compare l
 
+(* ---- joins: which navigation prefixes the request selects, and how a serialised joined object is printed *)
+let pm_nav_of_prefix = function
+  | "host" -> Some PmScHost | "check_command" -> Some (PmScNav PmNCheckCommand) | "check_period" -> Some (PmScNav PmNCheckPeriod)
+  | "event_command" -> Some (PmScNav PmNEventCommand) | "command_endpoint" -> Some (PmScNav PmNCommandEndpoint) | _ -> None
+let pm_prefix_of_nav = function
+  | PmScHost -> "host" | PmScNav PmNCheckCommand -> "check_command" | PmScNav PmNCheckPeriod -> "check_period"
+  | PmScNav PmNEventCommand -> "event_command" | PmScNav PmNCommandEndpoint -> "command_endpoint" | _ -> "?"
+let pm_jtyname = function PmJHost -> "Host" | PmJCheckCommand -> "CheckCommand" | PmJTimePeriod -> "TimePeriod"
+  | PmJEventCommand -> "EventCommand" | PmJEndpoint -> "Endpoint"
+let pm_jtype_of_name = function "Host" -> Some PmJHost | "CheckCommand" -> Some PmJCheckCommand | "TimePeriod" -> Some PmJTimePeriod
+  | "EventCommand" -> Some PmJEventCommand | "Endpoint" -> Some PmJEndpoint | _ -> None
+(* (selected prefixes, all_joins) of a pm_http line: joins=1 -> ["host.name"; "check_command"], joins=2 -> all_joins,
+   jsel=<prefix,prefix..> -> those prefixes in the given order *)
+let pm_join_sel a : pm_scope list * bool =
+  let from_jsel = List.filter_map pm_nav_of_prefix (pm_split ',' (str a "jsel" "-")) in
+  match num a "joins" 0 with
+  | 2 -> (from_jsel, true)
+  | 1 -> (PmScHost :: PmScNav PmNCheckCommand :: from_jsel, false)
+  | _ -> (from_jsel, false)
+let pm_join_requested a = num a "joins" 0 <> 0 || has a "jsel"
+let pm_jline ((v, (t, n)) : pm_scope * (pm_jtype * pm_str)) = pm_prefix_of_nav v ^ ">" ^ pm_jtyname t ^ ":" ^ hex_enc (pm_sz n)
+
 let op_pm_http a =
   let h = pm_http_of a in
-  let (_, r) = pm_filter_targets true !pm_user h.ph_perm h.ph_tys h.ph_q !pm_inv in
+  let (_, r) = pm_filter_targets !pm_globals true !pm_user h.ph_perm h.ph_tys h.ph_q !pm_inv in
   match r with
   | PmErr _ -> emit "pm_http code=404"
   | PmOk l ->
@@ -141,20 +185,17 @@ let op_pm_http a =
        else emit (Printf.sprintf "pm_http code=ok objs=%s" (pm_join_sorted (pm_dedup keys)))
      | "modify" ->
        emit (Printf.sprintf "pm_http code=ok objs=%s changed=%s" (pm_join_sorted keys) (pm_join_sorted (pm_dedup keys)))
-     | "query" when num a "joins" 0 <> 0 ->
-       let js = List.concat (List.map (fun o ->
-           if o.po_type = PmService then
-             (match pm_lookup !pm_inv PmHost o.po_host with
-              | Some ho when pm_join_visible !pm_user ho -> [pm_keystr (pm_key_of ho)]
-              | _ -> [])
-           else []) l) in
+     | "query" when pm_join_requested a ->
+       let (sel, all) = pm_join_sel a in
+       let t = (match h.ph_tys with [t] -> t | _ -> PmHost) in
+       let js = List.map pm_jline (pm_joins !pm_globals !pm_user !pm_inv t sel all l) in
        emit (Printf.sprintf "pm_http code=ok objs=%s joins=%s" (pm_join_sorted keys) (pm_join_sorted js))
      | _ -> emit (Printf.sprintf "pm_http code=ok objs=%s" (pm_join_sorted keys)))
 
 let op_pm_q a =
   let perm = pm_zs (pm_hex a "perm") in
   let prov = num a "prov" 0 <> 0 in
-  let r = pm_filter_targets (not prov) !pm_user perm (pm_types_of a) (pm_query_of a) !pm_inv in
+  let r = pm_filter_targets !pm_globals (not prov) !pm_user perm (pm_types_of a) (pm_query_of a) !pm_inv in
   let has = fst (pm_has_permission !pm_user perm) in
   let ob = pm_observe prov has r in
   match snd r with
@@ -164,7 +205,7 @@ let op_pm_q a =
 let op_pm_perm a =
   let perm = pm_zs (pm_hex a "perm") in
   let (found, pf) = pm_has_permission !pm_user perm in
-  let adm = List.map (fun (k, e) -> pm_keystr k ^ (if e then "!E" else "")) (pm_allows !pm_user perm !pm_inv) in
+  let adm = List.map (fun (k, e) -> pm_keystr k ^ (if e then "!E" else "")) (pm_allows !pm_globals !pm_user perm !pm_inv) in
   emit (Printf.sprintf "pm_perm has=%s has2=%s check=%s filtered=%s admits=%s" (b01 found) (b01 found)
           (if found then "ok" else "script") (b01 (pf <> None)) (pm_join_sorted adm))
 
@@ -179,7 +220,7 @@ let pm_parse_keys (s : string) : ((pm_type * pm_str) list, string) result =
   go [] (pm_split ',' s)
 
 let oracle_c18_case script trace =
-  let specs = ref [] and user = ref [] and inv = ref [] in
+  let specs = ref [] and user = ref [] and inv = ref [] and glob = ref [] in
   let tr = ref trace in
   let err = ref None in
   let fail m = if !err = None then err := Some m in
@@ -189,6 +230,7 @@ let oracle_c18_case script trace =
   List.iteri (fun li line ->
     if !err = None then
     match parse_line line with
+    | Some ("pm_glob", a) -> glob := pm_glob_add (pm_glob_of a) !glob
     | Some ("pm_host", a) -> specs := pm_spec_of false a :: !specs
     | Some ("pm_svc", a) -> specs := pm_spec_of true a :: !specs
     | Some ("pm_user", a) -> user := pm_user_of (str a "perms" "-")
@@ -213,7 +255,7 @@ let oracle_c18_case script trace =
           | Ok keys ->
             if tok_val t "has2" <> tok_val t "has" then fail (Printf.sprintf "step=%d has-permission-depends-on-out-parameter" li)
             else if (tok_val t "check" = Some "ok") <> has then fail (Printf.sprintf "step=%d check-permission-disagrees-with-has-permission" li)
-            else if not (pm_oracle_perm !user perm !inv has keys) then
+            else if not (pm_oracle_perm !glob !user perm !inv has keys) then
               fail (Printf.sprintf "step=%d perm: %s" li
                       (if has <> pm_spec_has !user perm then "has-permission-differs-from-match-spec" else "filter-admits-unpermitted-object"))))
     | Some ("pm_q", a) ->
@@ -234,7 +276,7 @@ let oracle_c18_case script trace =
           | Ok r ->
             let ob = { pv_has = has; pv_cons = cons; pv_res = r } in
             let tys = pm_types_of a and q = pm_query_of a in
-            if not (pm_oracle_q !user perm tys q !inv ob) then
+            if not (pm_oracle_q !glob !user perm tys q !inv ob) then
               fail (Printf.sprintf "step=%d targets: %s" li
                       (if has <> pm_spec_has !user perm then "has-permission-differs-from-match-spec"
                        else if not has then "no-permission-but-not-rejected-first"
@@ -247,15 +289,27 @@ let oracle_c18_case script trace =
          let h = pm_http_of a in
          let code = match tok_val t "code" with Some c -> c | None -> "?" in
          let keys_of k = match tok_val t k with None -> Ok [] | Some s -> pm_parse_keys s in
-         (match keys_of "objs", keys_of "changed", keys_of "joins" with
+         (* joins=<prefix>>Type:hexname,..  -> (type, name) of every serialised joined object *)
+         let jkeys = match tok_val t "joins" with
+           | None -> Ok []
+           | Some s ->
+             (try Ok (List.map (fun x ->
+                 let i = String.index x '>' in
+                 let r = String.sub x (i + 1) (String.length x - i - 1) in
+                 let c = String.index r ':' in
+                 match pm_jtype_of_name (String.sub r 0 c) with
+                 | Some jt -> (jt, pm_zs (hex_dec (String.sub r (c + 1) (String.length r - c - 1))))
+                 | None -> failwith "type") (pm_split ',' s))
+              with _ -> Error s) in
+         (match keys_of "objs", keys_of "changed", jkeys with
           | Ok o, Ok c, Ok j ->
             let has = pm_spec_has !user h.ph_perm in
             let acted = o @ c in
             let ob = { pv_has = has; pv_cons = None; pv_res = (if code = "404" then None else Some acted) } in
             if (not has) && (code <> "404" || acted <> []) then fail (Printf.sprintf "step=%d http: no-permission-but-request-served" li)
-            else if not (pm_oracle_q !user h.ph_perm h.ph_tys h.ph_q !inv ob) then
+            else if not (pm_oracle_q !glob !user h.ph_perm h.ph_tys h.ph_q !inv ob) then
               fail (Printf.sprintf "step=%d http: unpermitted-object-acted-on-or-forbidden-name-not-rejected" li)
-            else if not (pm_oracle_joins !user !inv j) then
+            else if not (pm_oracle_joins !glob !user !inv j) then
               fail (Printf.sprintf "step=%d http: unpermitted-joined-object-serialised" li)
           | _ -> fail (Printf.sprintf "step=%d unparsable-object" li)))
     | _ -> ()) script;
@@ -269,11 +323,12 @@ let () =
   register_op "pm_svc" (fun a ->
     pm_specs := pm_spec_of true a :: !pm_specs);
   register_op "pm_user" (fun a -> pm_user := pm_user_of (str a "perms" "-"));
+  register_op "pm_glob" (fun a -> pm_globals := pm_glob_add (pm_glob_of a) !pm_globals);
   register_op "pm_load" (fun _ ->
     pm_inv := pm_build_inv !pm_specs;
     emit (Printf.sprintf "pm_load n=%d" (List.length !pm_inv)));
   register_op "pm_perm" op_pm_perm;
   register_op "pm_q" op_pm_q;
   register_op "pm_http" op_pm_http;
-  register_case_end (fun () -> pm_specs := []; pm_inv := []; pm_user := []);
+  register_case_end (fun () -> pm_specs := []; pm_inv := []; pm_user := []; pm_globals := []);
   register_oracle "C18" oracle_c18_case
